@@ -1,5 +1,6 @@
 """C12 — uses() and uses_list() report field usage exactly."""
 from lib import *
+import sem
 
 LEVEL = "other"
 EXPLANATION = ("Exhaustiveness of the AST walk decided from types: an ADT is field-bearing if scheme::Field is "
@@ -233,6 +234,20 @@ DEFAULTS = {"visit_expr": ("walk", "node"), "visit_logical_expr": ("visit_expr",
             "visit_function_call_expr": ("visit_value_expr", "self"), "visit_function_call_arg_expr": ("visit_value_expr", "self")}
 
 
+def _only_early_exit_guards(S, site):
+    """every condition on the way to the site is `the flag self.uses is not set yet`"""
+    for f, pol in site.pc:
+        lits, ors = sem.literals(((f, pol),))
+        if ors or not lits:
+            return False
+        for a, p in lits:
+            n = strip(a.node) if a.node is not None else {}
+            if p or a.kind not in ("opaque", "call", "local") or n.get("k") != "Field" or n.get("name") != "uses" or \
+                    sem.param_index(S, n["e"], a.frame) != 0:
+                return False
+    return True
+
+
 def rule_visitor(E, R):
     rule = "R12-visitor"
     for tr, walkname in (("ast::visitor::Visitor", "walk"), ("ast::visitor::VisitorMut", "walk_mut")):
@@ -242,10 +257,15 @@ def rule_visitor(E, R):
             if not h:
                 R.cannot(rule, fn, "anchor not found")
                 continue
+            S = sem.Sem(E, h, inline=False)
             t = tail(h["body"])
             tgt = walkname if target == "walk" else target
-            ok = t.get("k") == "MethodCall" and t["m"] == tgt and local_name(t["recv"]) == recv and \
-                [local_name(a) for a in t["args"]] == (["self"] if recv == "node" else ["node"])
+            ok = t.get("k") == "MethodCall" and t["m"] == tgt and not [x for x in S.sites() if x.node is t and x.pc]
+            if ok:
+                # forwards (self, node) in the right roles: walk is node.walk(self); visit_* is self.visit_*(node)
+                ri = sem.param_index(S, t["recv"], S.root)
+                ai = [sem.param_index(S, a_, S.root) for a_ in t["args"]]
+                ok = (ri, ai) == ((1, [0]) if recv == "node" else (0, [1]))
             R.check(ok, rule, fn, "default forwards to %s" % tgt, where=h["span"])
     for vis in ("UsesVisitor", "UsesListVisitor"):
         pre = "<ast::visitor::%s as ast::visitor::Visitor>::" % vis
@@ -256,47 +276,67 @@ def rule_visitor(E, R):
             h = methods.get(m)
             if not h:
                 continue
-            t = tail(h["body"])
-            ok = False
-            if t.get("k") == "If" and "else" not in t:
-                c = strip(t["cond"])
-                neg = c.get("k") == "Unary" and c["op"] == "Not" and strip(c["e"]).get("k") == "Field" and strip(c["e"])["name"] == "uses"
-                w = tail(t["then"])
-                ok = neg and w.get("k") == "MethodCall" and w["m"] == "walk" and local_name(w["recv"]) == "node" and local_name(w["args"][0]) == "self"
+            S = sem.Sem(E, h)
+            walks = [x for x in S.sites() if x.node.get("k") == "MethodCall" and x.node["m"] == "walk" and
+                     sem.param_index(S, x.node["recv"], x.frame) == 1 and sem.param_index(S, x.node["args"][0], x.frame) == 0]
+            ok = len(walks) == 1 and _only_early_exit_guards(S, walks[0]) and not walks[0].in_loop
             R.check(ok, rule, pre + m, "walks the node unless the field was already found (early exit only)", where=h["span"])
     hf = E.hir("<ast::visitor::UsesVisitor as ast::visitor::Visitor>::visit_field")
     if hf:
-        t = tail(hf["body"])
-        ok = False
-        if t.get("k") == "If" and "else" not in t:
-            c = strip(t["cond"])
-            eq = c.get("k") == "Binary" and c["op"] == "Eq" and strip(c["l"]).get("name") == "field" and local_name(chain(c["r"])[0]) == "f"
-            asg = [a for a in exprs(t["then"], "Assign")]
-            ok = eq and len(asg) == 1 and strip(asg[0]["l"]).get("name") == "uses" and is_lit(asg[0]["r"], True)
+        S = sem.Sem(E, hf)
+        sets = [x for x in S.sites() if x.node.get("k") == "Assign" and strip(x.node["l"]).get("k") == "Field" and strip(x.node["l"])["name"] == "uses"]
+        ok = len(sets) == 1 and is_lit(sets[0].node["r"], True)
+        if ok:
+            lits, ors = sem.literals(sets[0].pc)
+            ok = len(lits) == 1 and not ors and lits[0][0].kind == "cmp" and lits[0][1] and lits[0][0].op == "Eq"
+            if ok:
+                a = lits[0][0]
+                sides = []
+                for v in (a.l, a.r):
+                    n = strip(v.node)
+                    if n.get("k") == "Field" and n.get("name") == "field" and sem.param_index(S, n["e"], v.frame) == 0:
+                        sides.append("self.field")
+                    elif sem.param_index(S, v.node, v.frame) == 1:
+                        sides.append("visited")
+                ok = sorted(sides) == ["self.field", "visited"]
         R.check(ok, rule, norm(hf["path"]), "`uses` is set exactly when the visited field equals the queried one", where=hf["span"])
     hc = E.hir("<ast::visitor::UsesListVisitor as ast::visitor::Visitor>::visit_comparison_expr")
     if hc:
-        body = hc["body"]
-        ifs = [i for i in exprs(body, "If", into_closures=False)]
-        inlist = None
-        for i in ifs:
-            c = strip(i["cond"])
-            if c.get("k") == "LetExpr" and (pat_variant(c["pat"]) or "").endswith("ComparisonOpExpr::InList"):
-                inlist = i
-        ok = False
-        if inlist is not None:
-            news = [c for c in exprs(inlist["then"], "Call") if norm(c.get("callee", "")) == "ast::visitor::UsesVisitor::new"]
-            visits = [c for c in exprs(inlist["then"], "MethodCall") if c["m"] == "visit_comparison_expr" and local_name(c["args"][0]) == "comparison_expr"]
-            sets = [a for a in exprs(inlist["then"], "Assign") if strip(a["l"]).get("name") == "uses" and is_lit(a["r"], True)]
-            guarded = any(strip(j["cond"]).get("k") == "Field" and strip(j["cond"])["name"] == "uses" for j in exprs(inlist["then"], "If"))
-            fld = bool(news) and strip(news[0]["args"][0]).get("name") == "field"
-            ok = len(news) == 1 and len(visits) == 1 and len(sets) == 1 and guarded and fld
-        R.check(ok, rule, norm(hc["path"]), "a field counts for uses_list iff it occurs inside an `in $list` comparison",
-                "expected: if let InList{..} = op { run a UsesVisitor for the same field over the comparison; if it found the field set uses }", hc["span"])
-        t = tail(body)
-        walks_on = t.get("k") == "If" and strip(t["cond"]).get("k") == "Unary" and \
-            tail(t["then"]).get("m") == "walk" and local_name(tail(t["then"])["recv"]) == "comparison_expr"
-        R.check(walks_on, rule, norm(hc["path"]), "the comparison's children are still walked (nested list comparisons are found)", where=hc["span"])
+        S = sem.Sem(E, hc)
+        sets = [x for x in S.sites() if x.node.get("k") == "Assign" and strip(x.node["l"]).get("k") == "Field" and
+                strip(x.node["l"])["name"] == "uses" and sem.param_index(S, strip(x.node["l"])["e"], x.frame) == 0]
+        ok = len(sets) == 1 and is_lit(sets[0].node["r"], True)
+        why = "expected: if the operator is InList { run a UsesVisitor for the same field over the comparison; if it found the field set uses }"
+        if ok:
+            x = sets[0]
+            lits, ors = sem.literals(x.pc)
+            inlist = found = False
+            for a, pol in lits:
+                if a.kind == "is" and pol and len(a.scruts) == 1 and {sem.variant_head(y[0]) for y in a.alts} == {"ComparisonOpExpr::InList"}:
+                    n = strip(a.scruts[0].node)
+                    inlist = n.get("k") == "Field" and n.get("name") == "op" and sem.param_index(S, n["e"], a.scruts[0].frame) == 1
+                if pol and a.kind in ("opaque", "call") and a.node is not None:
+                    n = strip(a.node)
+                    recv = n["e"] if n.get("k") == "Field" and n.get("name") == "uses" else sem.is_method(n, "uses")
+                    if recv is None:
+                        continue
+                    vb = sem.root_local(S, recv, a.frame)
+                    if vb is None or vb.expr is None:
+                        continue
+                    mk = sem.peel(vb.expr)
+                    same_field = norm(mk.get("callee", "")) == "ast::visitor::UsesVisitor::new" and mk.get("args") and \
+                        strip(mk["args"][0]).get("k") == "Field" and strip(mk["args"][0])["name"] == "field" and \
+                        sem.param_index(S, strip(mk["args"][0])["e"], vb.frame) == 0
+                    visited = [y for y in S.sites() if y.node.get("k") == "MethodCall" and y.node["m"] == "visit_comparison_expr" and
+                               sem.root_local(S, y.node["recv"], y.frame) is vb and sem.param_index(S, y.node["args"][0], y.frame) == 1]
+                    found = bool(same_field and visited)
+            others = [a for a, pol in lits if not (a.kind == "is" or a.kind in ("opaque", "call", "ok"))]
+            ok = inlist and found and not ors and not others
+        R.check(ok, rule, norm(hc["path"]), "a field counts for uses_list iff it occurs inside an `in $list` comparison", why, hc["span"])
+        walks = [x for x in S.sites() if x.node.get("k") == "MethodCall" and x.node["m"] == "walk" and
+                 sem.param_index(S, x.node["recv"], x.frame) == 1 and x.frame is S.root]
+        R.check(len(walks) == 1 and _only_early_exit_guards(S, walks[0]), rule, norm(hc["path"]),
+                "the comparison's children are still walked (nested list comparisons are found)", where=hc["span"])
     else:
         R.cannot(rule, "UsesListVisitor::visit_comparison_expr", "anchor not found")
 
@@ -310,21 +350,39 @@ def rule_resolve(E, R):
             if not h:
                 R.cannot(rule, fn, "anchor not found")
                 continue
-            t = tail(h["body"])
-            ok = False
-            if t.get("k") == "MethodCall" and t["m"] == "map":
-                g = strip(t["recv"])
-                gf = g.get("k") == "MethodCall" and norm(g.get("callee", "")) == "scheme::Scheme::get_field" and \
-                    root_is_field(g["recv"], "self", "scheme") and local_name(g["args"][0]) == "field_name"
-                clo = closure_of(t["args"][0])
-                inner = False
-                if clo:
-                    news = [c for c in exprs(clo["body"], "Call") if norm(c.get("callee", "")) == "ast::visitor::%s::new" % vis]
-                    walks = [c for c in exprs(clo["body"], "MethodCall") if c["m"] == "walk" and local_name(c["recv"]) == "self"]
-                    res = tail(clo["body"])
-                    inner = len(news) == 1 and local_name(news[0]["args"][0]) in pat_bindings({"k": "x", "params": clo["params"]}) and \
-                        len(walks) == 1 and res.get("k") == "MethodCall" and res["m"] == "uses"
-                ok = gf and inner
+            S = sem.Sem(E, h)
+            gets = [x for x in S.sites() if x.node.get("k") == "MethodCall" and norm(x.node.get("callee", "")) == "scheme::Scheme::get_field"]
+            news = [x for x in S.sites() if x.node.get("k") == "Call" and norm(x.node.get("callee", "")) == "ast::visitor::%s::new" % vis]
+            ok = len(gets) == 1 and len(news) == 1
+            if ok:
+                g, nw = gets[0], news[0]
+                gsch = strip(g.node["recv"])
+                ok = sem.param_index(S, g.node["args"][0], g.frame) == 1 and not g.pc and \
+                    gsch.get("k") == "Field" and gsch.get("name") == "scheme" and sem.param_index(S, gsch["e"], g.frame) == 0
+                # the visitor is built from the resolved field, only when resolution succeeded
+                ok = ok and sem.passes_through(S, nw.node["args"][0], nw.frame, g.node)
+                vb = None
+                for b_ in nw.frame.binds.values():
+                    if b_.expr is not None and sem.peel(b_.expr) is nw.node:
+                        vb = b_
+                walks = [x for x in S.sites() if x.node.get("k") == "MethodCall" and x.node["m"] == "walk" and
+                         sem.param_index(S, x.node["recv"], x.frame) == 0 and vb is not None and
+                         sem.root_local(S, x.node["args"][0], x.frame) is vb]
+                flags = [x for x in S.sites() if x.node.get("k") == "MethodCall" and x.node["m"] == "uses" and vb is not None and
+                         sem.root_local(S, x.node["recv"], x.frame) is vb]
+                ok = ok and len(walks) == 1 and len(flags) == 1 and walks[0].pc == nw.pc and not walks[0].in_loop
+                if ok:
+                    # the flag is what the function returns on success; failure of get_field is what it returns otherwise
+                    fl = flags[0]
+                    good = False
+                    for leaf in S.result_leaves():
+                        n = leaf.node
+                        if n.get("k") == "Call" and norm(n.get("callee", "")) == "core::result::Result::Ok" and sem.peel(n["args"][0]) is fl.node:
+                            good = any(a.kind == "ok" and pol and sem.peel(a.node) is g.node for a, pol in sem.literals(leaf.pc)[0])
+                        elif n.get("k") == "MethodCall" and n["m"] == "map" and sem.peel(n["recv"]) is g.node:
+                            clo = closure_of(n["args"][0])
+                            good = clo is not None and tail(clo["body"]) is fl.node
+                    ok = good
             R.check(ok, rule, fn, "resolves the name with get_field (unknown -> error), walks the whole AST with a %s, returns its flag" % vis, where=h["span"])
 
 
